@@ -642,8 +642,102 @@ def rule_gray_utils(repo: Repo, rep: Report) -> int:
     return n
 
 
+TABLE_NAMES = ("constellation", "bit_patterns", "levels", "qpsk", "qpsk_rotated", "bit_to_symbol_map")
+#: operations that return a view of (share storage with) their receiver
+VIEW_ATTRS = ("real", "imag", "T", "mT", "data", "H")
+VIEW_METHODS = ("view", "view_as", "reshape", "detach", "squeeze", "unsqueeze", "t", "transpose", "permute", "flatten", "narrow", "expand", "expand_as", "select", "unbind", "chunk", "split", "diagonal", "contiguous", "view_as_real", "view_as_complex", "conj", "requires_grad_")
+
+
+def _view_root(e: ast.AST, local_defs: Dict[str, ast.AST], depth: int = 0) -> Optional[str]:
+    """`self.<attr>` whose storage the expression shares (basic indexing, .real/.imag, view methods), else None."""
+    while True:
+        if isinstance(e, ast.Attribute) and e.attr in VIEW_ATTRS:
+            e = e.value
+        elif isinstance(e, ast.Subscript):
+            idx = e.slice.elts if isinstance(e.slice, ast.Tuple) else [e.slice]
+            # advanced indexing (a list / tensor of positions, a mask) copies; integers, slices, None and ... give views
+            if not all(isinstance(i, ast.Slice) or (isinstance(i, ast.Constant) and (i.value is None or i.value is Ellipsis or (isinstance(i.value, int) and not isinstance(i.value, bool)))) or (isinstance(i, ast.UnaryOp) and isinstance(i.operand, ast.Constant)) for i in idx):
+                return None
+            e = e.value
+        elif isinstance(e, ast.Call) and isinstance(e.func, ast.Attribute) and e.func.attr in VIEW_METHODS:
+            e = e.func.value
+        elif isinstance(e, ast.Call) and (call_name(e) or "") in ("torch.view_as_real", "torch.view_as_complex", "torch.real", "torch.imag", "torch.squeeze", "torch.unsqueeze", "torch.transpose", "torch.t") and e.args:
+            e = e.args[0]
+        else:
+            break
+    ch = attr_chain(e) if isinstance(e, ast.Attribute) else None
+    if ch is not None and ch.startswith("self.") and ch.count(".") == 1:
+        return ch
+    if isinstance(e, ast.Name) and e.id in local_defs and depth < 4:
+        return _view_root(local_defs[e.id], local_defs, depth + 1) or f"local:{e.id}"
+    return None
+
+
+def rule_table_alias(repo: Repo, rep: Report) -> int:
+    """The published tables of a (de)modulator are written only while they are built: no method stores into a table in
+    place, and no other attribute that shares storage with a table (a view: `.imag[0]`, a slice, the same tensor
+    registered twice) is written in place anywhere in the class."""
+    n = 0
+    for mi in repo.modules.values():
+        if not mi.relpath.startswith("kaira/modulations/"):
+            continue
+        for ci in mi.classes.values():
+            regs = [(c.args[0].value, c.args[1], m_) for m_ in ci.methods.values() for c in ast.walk(m_.node) if isinstance(c, ast.Call) and attr_chain(c.func) == "self.register_buffer" and len(c.args) >= 2 and isinstance(c.args[0], ast.Constant)]
+            tables = {nm for nm, _, _ in regs if nm in TABLE_NAMES}
+            if not tables:
+                continue
+            n += 1
+            # storage groups: attribute -> root it shares storage with
+            shares: Dict[str, str] = {}
+            for m_ in ci.methods.values():
+                local_defs = {s_.targets[0].id: s_.value for s_ in ast.walk(m_.node) if isinstance(s_, ast.Assign) and len(s_.targets) == 1 and isinstance(s_.targets[0], ast.Name)}
+                defs = [(c.args[0].value, c.args[1]) for c in ast.walk(m_.node) if isinstance(c, ast.Call) and attr_chain(c.func) == "self.register_buffer" and len(c.args) >= 2 and isinstance(c.args[0], ast.Constant)]
+                defs += [(attr_chain(s_.targets[0])[5:], s_.value) for s_ in ast.walk(m_.node) if isinstance(s_, ast.Assign) and len(s_.targets) == 1 and isinstance(s_.targets[0], ast.Attribute) and (attr_chain(s_.targets[0]) or "").startswith("self.") and (attr_chain(s_.targets[0]) or "").count(".") == 1]
+                for nm, expr in defs:
+                    root = _view_root(expr, local_defs)
+                    if root is not None and root != f"self.{nm}":
+                        shares[nm] = root
+            groups: Dict[str, set] = {}
+            for nm, root in shares.items():
+                groups.setdefault(root, set()).add(nm)
+            tainted = set()  # attributes sharing storage with a table
+            for root, members in groups.items():
+                names_ = set(members) | ({root[5:]} if root.startswith("self.") else set())
+                if names_ & tables:
+                    tainted |= names_
+            tainted |= tables
+            bad = []
+            for m_ in ci.methods.values():
+                building = m_.name in ("__init__", "_create_constellation") or m_.name.startswith("_create") or m_.name.startswith("_build")
+                for s_ in ast.walk(m_.node):
+                    tgt = None
+                    how = ""
+                    if isinstance(s_, ast.Call) and isinstance(s_.func, ast.Attribute) and s_.func.attr.endswith("_") and not s_.func.attr.startswith("_") and s_.func.attr not in ("requires_grad_",):
+                        tgt, how = s_.func.value, f".{s_.func.attr}()"
+                    elif isinstance(s_, ast.Assign) and any(isinstance(t_, ast.Subscript) for t_ in s_.targets):
+                        tgt, how = next(t_ for t_ in s_.targets if isinstance(t_, ast.Subscript)), "subscript store"
+                    elif isinstance(s_, ast.AugAssign):
+                        tgt, how = s_.target, "augmented assignment"
+                    if tgt is None:
+                        continue
+                    root = _view_root(tgt, {}) if not (isinstance(tgt, ast.Attribute) and attr_chain(tgt) and attr_chain(tgt).count(".") == 1) else attr_chain(tgt)
+                    if root is None or not root.startswith("self."):
+                        continue
+                    nm = root[5:]
+                    if nm in tainted and not (building and nm in tables and nm not in shares):
+                        what = f"table `{nm}`" if nm in tables else f"`{nm}`, which shares its storage with the table `{shares.get(nm, '?')[5:] if shares.get(nm, '').startswith('self.') else next(iter(tables & tainted))}`"
+                        bad.append((m_, s_, f"{m_.name}: {how} on {what}"))
+            if bad:
+                for m_, s_, txt in bad[:3]:
+                    rep.violation("TABLE-ALIAS", m_, f"{ci.name}: {txt}", "the published constellation / label table is modified after construction (through an in-place write to the table or to a view of it): the points no longer have the documented geometry or energy, and modulator and demodulator tables drift apart", node=s_)
+            else:
+                rep.ok("TABLE-ALIAS", f"{mi.relpath}::{ci.name}", f"{ci.name}: tables {sorted(tables)}" + (f", sharing storage: {sorted(tainted - tables)}" if tainted - tables else ""), "no in-place write to a table or to an attribute sharing its storage outside the construction")
+    return n
+
+
 def run(repo: Repo, rep: Report, tier: str) -> None:
     n = rule_literal_tables(repo, rep)
+    n += rule_table_alias(repo, rep)
     n += rule_generated(repo, rep)
     n += rule_normalise(repo, rep)
     n += rule_gray_utils(repo, rep)
